@@ -409,6 +409,21 @@ func main() {
 		fmt.Fprintln(os.Stderr, "vcheck: machinery failure; no verdict")
 		os.Exit(2)
 	}
+	// every scenario must have been run by exactly one shard
+	if only == "" {
+		lc := exec.Command(bin, append(append([]string{}, common...), "-list")...)
+		lc.Env = runEnv
+		if lo, err := lc.Output(); err == nil {
+			want := int64(len(strings.Split(strings.TrimSpace(string(lo)), "\n")))
+			if strings.TrimSpace(string(lo)) == "" {
+				want = 0
+			}
+			if want != tot.scen {
+				fmt.Fprintf(os.Stderr, "vcheck: %d scenarios are defined but the shards ran %d (sharding inconsistency); no verdict\n", want, tot.scen)
+				os.Exit(2)
+			}
+		}
+	}
 
 	// 5. known findings
 	known, fixed := loadKnown(cfg.Property)
